@@ -93,7 +93,8 @@ def attrs_of(obj):
     d = getattr(obj, "__dict__", None)
     if d is not None:
         for k, v in d.items():
-            if k not in BOOKKEEPING and k != "target" and k != "ref":
+            # the mixins' own name-mangled attributes are bookkeeping (an implementation may add more of them)
+            if k not in BOOKKEEPING and not k.startswith(("_NodeMixin__", "_LightNodeMixin__", "_SymlinkNodeMixin__")) and k != "target" and k != "ref":
                 out[k] = v
     for k in SLOT_ATTRS:
         if k not in out:
